@@ -541,7 +541,7 @@ func modPow2(in *Interp, x *Term, k int) Value {
 	e := ts.Sub(expF, c(1023))
 	// cases
 	isSpecial := ts.Eq(expF, c(0x7ff))
-	small := ts.SLt(e, c(int64(k))) // |x| < 2^k (also zeros/subnormals: e = -1023)
+	small := ts.SLt(e, c(int64(k)))                   // |x| < 2^k (also zeros/subnormals: e = -1023)
 	allAbove := ts.SLe(c(int64(k)), ts.Sub(e, c(52))) // every significant bit >= 2^k
 	// middle: k <= e < k+52. Integer value of |x| scaled: if e >= 52 then
 	// v = sig << (e-52) else v = sig >> (52-e) with a fraction; handle both by
@@ -756,9 +756,15 @@ func (in *Interp) symSprintf(f string, argv Value) Value {
 		ai++
 		if n, ok := in.nativeArg(arg); ok {
 			out = in.strConcat(out, mkStr(fmt.Sprintf(verb, n)))
-		} else if itf, isI := arg.(Iface); isI && verb == "%s" {
+		} else if itf, isI := arg.(Iface); isI && (verb == "%s" || verb == "%q") {
 			if s, isS := itf.v.(Str); isS {
-				out = in.strConcat(out, s)
+				if verb == "%q" {
+					// diagnostics only: rendered without escape processing
+					in.noteAssumption("fmt %q of a symbolic string is rendered as \"<bytes>\" without escaping (diagnostic text)")
+					out = in.strConcat(in.strConcat(in.strConcat(out, mkStr("\"")), s), mkStr("\""))
+				} else {
+					out = in.strConcat(out, s)
+				}
 			} else {
 				in.unsupported("fmt: symbolic argument for " + verb)
 			}
@@ -768,6 +774,12 @@ func (in *Interp) symSprintf(f string, argv Value) Value {
 		i = j
 	}
 	return out
+}
+
+func (in *Interp) noteAssumption(a string) {
+	if in.stats != nil {
+		in.stats.Reach["assumption: "+a]++
+	}
 }
 
 func fmtErrorf(in *Interp, caller *frame, fn *ssa.Function, a []Value) Value {
